@@ -150,4 +150,24 @@ Proof.
   - destruct (mb_undecodable K mb); [discriminate|]. destruct (negb (rounds_ok K mb)); [discriminate|].
     destruct mode; try contradiction; apply IH in E; exact E.
 Qed.
+
+(** the scalars [verify_chunk] hands to the final multiscalar multiplication are [final_msm] of the
+    members' accumulated terms: this is the object [batch_linear] / C03_batch_is_weighted_residuals speak about *)
+Theorem verify_chunk_scalars mode ms ws z r sc :
+  verify_chunk K ofN mode ms ws z = (r, Some sc) ->
+  exists max_mn max_index first pad,
+    consistency K ms = Some (max_mn, max_index) /\ hd first ms = first /\
+    sc = final_msm K (acc_all K (acc_init K max_mn (mb_T K first)) (terms_list ms ws)) pad /\
+    (r = Err \/ z = true).
+Proof.
+  unfold verify_chunk. destruct (consistency K ms) as [[mx mi]|]; [|discriminate].
+  destruct (negb (forallb (transcript_phase_ok K) ms)); [discriminate|].
+  set (first := hd _ ms).
+  destruct (proof_loop K ofN mode ms ws _ []) as [[acc mk]|] eqn:E; [|discriminate].
+  destruct mode; try discriminate.
+  - apply proof_loop_acc in E; [|discriminate]. destruct (generator_padding _ _ _) as [pad|]; [|discriminate].
+    intros H. inversion H; subst. exists mx, mi, first, (N.to_nat pad). repeat split; [subst first; destruct ms; reflexivity|destruct z; auto].
+  - apply proof_loop_acc in E; [|discriminate]. destruct (generator_padding _ _ _) as [pad|]; [|discriminate].
+    intros H. inversion H; subst. exists mx, mi, first, (N.to_nat pad). repeat split; [subst first; destruct ms; reflexivity|destruct z; auto].
+Qed.
 End Loop.
